@@ -100,6 +100,21 @@ def run(F, R, ctx):
                 ok_res = any(F.fns[cc].call_blocks(r"\{impl Synchronizer\}::resume_threads$") for cc in callers.get(c, ()) if cc in F.fns)
             R.inst("C15.c", "%s / resume_threads follows %s" % (fn.short(), nm), ok_res,
                    "after Synchronizer::%s neither %s nor its caller resumes the stopped threads" % (nm, fn.short()), fn.loc(), sample=True)
+    # ---- d: the stopper waits for each thread to publish its context (retry loop), it does not skip a running thread
+    R.rule("C15.d", "Synchronizer::{enumerate_stacks, call_per_ctx} re-read a thread's published context in a loop until it is "
+                    "present (or the thread is gone / its forked handle can be locked): the load of Synchronizer.ctx lies on a "
+                    "CFG cycle, so a thread that has not reached its safepoint yet is waited for, not skipped")
+    for nm in ("enumerate_stacks", "call_per_ctx"):
+        fn = F.one(r"^steel::steel_vm::vm::\{impl Synchronizer\}::%s$" % nm)
+        loads = [i for i, b in fn.calls() if re.search(r"AtomicCell<T>\}::load$", b["callee"]) and any("SteelThread" in t for t in b["targs"])]
+        ok = bool(loads) and all(l in fn.reachable_from(fn.succ(l)) for l in loads)
+        # the retry cycle must not contain the per-thread iterator advance (that would be 'next thread', not 'retry')
+        nexts = set(i for i, b in fn.calls() if re.search(r"Iterator[^:]*::next$|::next$", b["callee"]))
+        ok = ok and all(l in fn.reachable_from(fn.succ(l), avoid=nexts) for l in loads)
+        R.inst("C15.d", "Synchronizer::%s waits for the context to be published" % nm, ok,
+               "Synchronizer::%s reads a thread's context pointer once instead of retrying until the thread has parked at a "
+               "safepoint: a thread that is still running is skipped, so its stack is not scanned / its environment not "
+               "updated while the world is supposedly stopped" % nm, fn.loc(), sample=True)
     # ---- s
     for nm, ctl, extra in (("stop_threads", "pause_for_safepoint", None), ("resume_threads", "resume", r"Thread\}::unpark$")):
         fn = F.one(r"^steel::steel_vm::vm::\{impl Synchronizer\}::%s$" % nm)
